@@ -115,7 +115,7 @@ def two_handle_history(seed, steps=16):
         lp["m"], lp["n"] = 0, 0
         lp["A"], lp["sense"], lp["rhs"], lp["range"], lp["rname"] = [], [], [], [], []
         lp["obj"], lp["lo"], lp["up"], lp["cname"] = [], [], [], []
-    out += lpfam.build_cmds(lp, "h0", r.choice(["load", "create"]))
+    out += lpfam.build_cmds(lp, "h0", r.choice(lpfam.BUILD_MODES))
     for which, val in [(0, r.choice([1, 2, 3, 4])), (2, r.choice([6, 7, 8, 9])), (7, r.choice([0, 1])), (4, r.choice([0, 1]))]:
         if r.random() < .5:
             out.append("set_param h0 %d %d" % (which, val))
@@ -336,7 +336,7 @@ def basis_scenario(lp, sid, r, maxbases=40):
     def newfile():
         ctr[0] += 1
         return "f_%s_%d.bas" % (sid, ctr[0])
-    lines = ["scenario %s" % sid, "handler on"] + lpfam.build_cmds(lp, "h0", "load") + ["dump h0"]
+    lines = ["scenario %s" % sid, "handler on"] + lpfam.build_cmds(lp, "h0", r.choice(lpfam.BUILD_MODES)) + ["dump h0"]
     # solve with basis hand-back: the returned basis must be confirmed by the verdict functions
     for algo in ("primal", "dual"):
         f = newfile()
@@ -377,7 +377,7 @@ def basis_scenario(lp, sid, r, maxbases=40):
 
 def binv_scenario(lp, sid, r):
     """C13: B^-1 rows / tableau rows / basis order after solves stopped at iteration limits, after pivot-ins and warm starts"""
-    lines = ["scenario %s" % sid, "handler on"] + lpfam.build_cmds(lp, "h0", r.choice(["load", "create"])) + ["dump h0"]
+    lines = ["scenario %s" % sid, "handler on"] + lpfam.build_cmds(lp, "h0", r.choice(lpfam.BUILD_MODES)) + ["dump h0"]
     for it in (1, 2, 3, 5, 8):
         lines += ["copy h1 h0 c", "set_param h1 5 %d" % it, "set_param h1 0 %d" % r.choice([1, 2, 3, 4]), "set_param h1 2 %d" % r.choice([6, 7, 8, 9]),
                   r.choice(["opt_primal h1", "opt_dual h1"]), "binv h1", "set_param h1 5 100000", r.choice(["opt_primal h1", "opt_dual h1"]), "sol h1", "binv h1"]
